@@ -30,6 +30,7 @@ FIXED = {
     "C43:new-word-inserted-at-end-of-whitespace": "fc750b9",
     "C18:peach-multi-reader-gone": "9d85244",
     "C18:run-parallel-reader-gone": "f65ff11",
+    "C23:modifier-leaks-into-next-evaluation": "f472008",
     "C17:str-repeat-overflow-wraps": "a2e5b92",
     "C17:flag-name-panics": "a2537fc",
     "C17:nil-for-list-or-map-parameter": "ec711ac",
